@@ -73,7 +73,7 @@ theorem writers_of_wall (z : Zoned) (l : NaiveDT) (hl : Zoned.overflowing_naive_
       formatItemsR (some l.date) (some l.time) (some (fixedOffsetName z.off, z.off)) (Strftime.items fmt)) := by
   refine ⟨?_, ?_, ?_, ?_, ?_, ?_, ?_, ?_⟩
   · intro sf use_z; unfold Rfc3339.to_rfc3339_opts; rw [hl]; rfl
-  · unfold Rfc3339.to_rfc3339 Rfc3339.to_rfc3339_opts; rw [hl]; rfl
+  · unfold Rfc3339.to_rfc3339; rw [hl]; rfl
   · unfold Rfc2822.to_rfc2822 Rfc3339.expectText; rw [hl]; rfl
   · unfold Serde.DateTimeStr.serialize; rw [hl]
   · intro o; unfold zoned_debug; rw [hl]; rfl
